@@ -142,7 +142,7 @@ Inductive verr :=
 | E_moq_addr | E_aliases | E_dep_any_pass | E_dep_digest_hashed
 (* Path.validate *)
 | E_name | E_regexp | E_srt_pub_source | E_redirect_useless | E_srt_pub_len
-| E_url | E_hostport | E_rtp_sdp | E_redirect_empty | E_redirect
+| E_url | E_rtsp_port_range | E_hostport | E_rtp_sdp | E_redirect_empty | E_redirect
 | E_rpi_w | E_rpi_h | E_rpi_w_mjpeg | E_rpi_h_mjpeg | E_rpi_exposure | E_rpi_awb | E_rpi_gains | E_rpi_denoise
 | E_rpi_metering | E_rpi_afmode | E_rpi_afrange | E_rpi_afspeed | E_rpi_hw_profile | E_rpi_hw_level
 | E_rpi_sw_profile | E_rpi_sw_level | E_rpi_profile | E_rpi_level | E_rpi_codec
@@ -180,7 +180,7 @@ Definition src_eqb (a b : src) : bool :=
 
 (* what the `case strings.HasPrefix(pconf.Source, ...)` branch of a static source checks *)
 Inductive skind :=
-| KRtsp          (* validateURL; sourceProtocol / sourceAnyPortEnable migrations *)
+| KRtsp          (* validateURL; sourceProtocol / sourceAnyPortEnable migrations; len(rtspUDPSourcePortRange) == 2 *)
 | KUrl           (* validateURL *)
 | KUrlPort       (* validateURL, net.SplitHostPort *)
 | KNothing       (* unix+mpegts:// *)
@@ -202,9 +202,10 @@ Definition find_static (s : list Z) : option skind :=
   end.
 
 (* first error of a static branch: E_url (validateURL), then E_hostport, then E_rtp_sdp *)
-Definition static_err (k : skind) (url_ok hostport_ok sdp : bool) : option verr :=
+Definition static_err (k : skind) (url_ok hostport_ok sdp : bool) (port_range : Z) : option verr :=
   match k with
-  | KRtsp | KUrl => chk (negb url_ok) E_url
+  | KRtsp => chk (negb url_ok) E_url ;; chk (negb (port_range =? 2)) E_rtsp_port_range
+  | KUrl => chk (negb url_ok) E_url
   | KUrlPort => chk (negb url_ok) E_url ;; chk (negb hostport_ok) E_hostport
   | KNothing => None
   | KUrlPortSdp => chk (negb url_ok) E_url ;; chk (negb hostport_ok) E_hostport ;; chk (negb sdp) E_rtp_sdp
@@ -212,7 +213,7 @@ Definition static_err (k : skind) (url_ok hostport_ok sdp : bool) : option verr 
   end.
 
 (* ---- users (authInternalUsers) *)
-Record userc := {
+Record userc := U {
   u_user : list Z;
   u_pass : list Z;
   u_nips : Z;                      (* len(IPs) *)
@@ -238,10 +239,11 @@ Fixpoint users_err (us : list userc) : option verr :=
   end.
 
 (* ---- per-path plain fields added to the first version of this model *)
-Record pext := {
+Record pext := PX {
   e_url_ok : bool;                   (* oracle: validateURL(source) *)
   e_hostport_ok : bool;              (* oracle: net.SplitHostPort(u.Host) *)
   e_rtp_sdp : bool;                  (* RTPSDP != "" *)
+  e_port_range : Z;                  (* len(RTSPUDPSourcePortRange) *)
   e_dis_pub_override : option bool;  (* deprecated, replaced by overridePublisher *)
   e_override_publisher : bool;
   e_source_protocol : option Z;      (* deprecated, replaced by rtspTransport; 0 automatic 1 udp 2 multicast 3 tcp *)
@@ -285,7 +287,7 @@ Record pext := {
   e_on_unavailable : list Z
 }.
 
-Record pathc := {
+Record pathc := P {
   p_name : list Z;
   p_name_ok : bool;        (* oracle: IsValidPathName (plain name) / regexp.Compile (name after '~') *)
   p_regex : bool;          (* output: Regexp != nil *)
@@ -316,7 +318,7 @@ Definition p_source (p : pathc) : src :=
   let s := p_source_str p in
   if list_eqb s (bytes "publisher") then SPublisher else
   match find_static s with
-  | Some k => SStatic (is_none (static_err k (e_url_ok (p_x p)) (e_hostport_ok (p_x p)) (e_rtp_sdp (p_x p))))
+  | Some k => SStatic (is_none (static_err k (e_url_ok (p_x p)) (e_hostport_ok (p_x p)) (e_rtp_sdp (p_x p)) (e_port_range (p_x p))))
   | None =>
       if list_eqb s (bytes "redirect") then SRedirect else
       if list_eqb s (bytes "rpiCamera") then SRpi else SInvalid
@@ -329,7 +331,7 @@ Definition is_rtsp_source (p : pathc) : bool :=
 (* deprecated parameters copied by Path.validate (each inside the branch of the source switch where the code has it) *)
 Definition pext_migrate (s : src) (rtsp : bool) (e : pext) : pext :=
   let rpi := src_eqb s SRpi in
-  {| e_url_ok := e_url_ok e; e_hostport_ok := e_hostport_ok e; e_rtp_sdp := e_rtp_sdp e;
+  {| e_url_ok := e_url_ok e; e_hostport_ok := e_hostport_ok e; e_rtp_sdp := e_rtp_sdp e; e_port_range := e_port_range e;
      e_dis_pub_override := e_dis_pub_override e;
      e_override_publisher :=
        if src_eqb s SPublisher
@@ -453,7 +455,7 @@ Definition source_err (all : list pathc) (taken : list Z) (p : pathc) : option v
   | SPublisher => chk (negb (p_srt_pub p =? 0) && negb (srt_len_ok (p_srt_pub p))) E_srt_pub_len   (* checkSRTPassphrase *)
   | SStatic _ =>
       match find_static (p_source_str p) with
-      | Some k => static_err k (e_url_ok (p_x p)) (e_hostport_ok (p_x p)) (e_rtp_sdp (p_x p))
+      | Some k => static_err k (e_url_ok (p_x p)) (e_hostport_ok (p_x p)) (e_rtp_sdp (p_x p)) (e_port_range (p_x p))
       | None => None
       end
   | SRedirect => chk (negb (p_redirect p)) E_redirect_empty ;; chk (negb (p_redirect_ok p)) E_redirect
@@ -540,7 +542,7 @@ Definition has_dep_creds (p : pathc) : bool :=
         is_none (e_read_user e) && is_none (e_read_pass e) && is_none (e_read_ips e)).
 
 (* ---- global plain fields added to the first version of this model *)
-Record xauth := {
+Record xauth := XA {
   a_ext_url : option (list Z);     (* deprecated externalAuthenticationURL -> authMethod = http, authHTTPAddress *)
   a_method : Z;                    (* 0 internal, 1 http, 2 jwt, 3 anything else *)
   a_http_addr : list Z;
@@ -552,13 +554,13 @@ Record xauth := {
 }.
 
 (* address + deprecated xAllowOrigin -> xAllowOrigins of a HTTP listener *)
-Record xsrv := {
+Record xsrv := XS {
   s_addr : list Z;
   s_origin : option (list Z);
   s_origins : list (list Z)
 }.
 
-Record xrtsp := {
+Record xrtsp := XR {
   r_disable : option bool;                   (* deprecated rtspDisable -> rtsp *)
   r_on : bool;
   r_protocols : option (bool * bool * bool); (* deprecated protocols -> rtspTransports; (udp, multicast, tcp) in the set *)
@@ -584,7 +586,7 @@ Record xrtsp := {
   r_mc_srtcp : Z
 }.
 
-Record xwebrtc := {
+Record xwebrtc := XW {
   w_disable : option bool;                   (* deprecated webrtcDisable -> webrtc *)
   w_on : bool;
   w_srv : xsrv;
@@ -599,7 +601,7 @@ Record xwebrtc := {
   w_from_ifaces : bool
 }.
 
-Record xmoq := {
+Record xmoq := XM {
   m_on : bool;
   m_quic : list Z;
   m_https2 : option (list Z);                (* deprecated moqHTTPS2Address -> moqHTTP2Address *)
@@ -609,7 +611,7 @@ Record xmoq := {
 }.
 
 (* deprecated top-level record parameters -> pathDefaults *)
-Record xrec := {
+Record xrec := XD {
   d_record : option bool;   d_pd_record : bool;
   d_path : option (list Z); d_pd_path : list Z;
   d_format : option Z;      d_pd_format : Z;        (* 0 fmp4 1 mpegts 2 other *)
@@ -618,7 +620,7 @@ Record xrec := {
   d_del : option Z;         d_pd_del : Z
 }.
 
-Record gext := {
+Record gext := GX {
   x_auth : xauth;
   x_api : bool;     x_api_srv : xsrv;
   x_metrics : bool; x_metrics_srv : xsrv;
@@ -634,7 +636,7 @@ Record gext := {
   x_rec : xrec
 }.
 
-Record gconf := {
+Record gconf := G {
   g_read_to : Z;                   (* ReadTimeout, ns *)
   g_write_to : Z;
   g_wqs : Z;                       (* WriteQueueSize *)
@@ -887,7 +889,8 @@ Definition path_documented_b (playback : bool) (p : pathc) : bool :=
   imp (src_eqb (p_source p) SPublisher)
       (match e_dis_pub_override (p_x p) with Some d => Bool.eqb (e_override_publisher (p_x p)) (negb d) | None => true end) &&
   imp (is_rtsp_source p)
-      (opt_eqb Z.eqb (e_source_protocol (p_x p)) (e_rtsp_transport (p_x p)) &&
+      ((e_port_range (p_x p) =? 2) &&
+       opt_eqb Z.eqb (e_source_protocol (p_x p)) (e_rtsp_transport (p_x p)) &&
        opt_eqb Bool.eqb (e_source_any_port (p_x p)) (e_rtsp_any_port (p_x p))) &&
   opt_eqb list_eqb (e_on_ready (p_x p)) (e_on_available (p_x p)) &&
   opt_eqb Bool.eqb (e_ready_restart (p_x p)) (e_available_restart (p_x p)) &&
